@@ -591,3 +591,50 @@ Section Store.
   Definition read_parts (d : db) (h : N) (total : nat) : option (list V) :=
     all_some (map (fun i => db_get d (key_part h (N.of_nat i))) (seq 0 total)).
 End Store.
+
+(* ====================================================================== the executor's validation cache *)
+
+(** kai/state/cstate/execution.go [BlockExecutor.ValidateBlock]: results are cached "over a single
+    height" (the cache is emptied by ApplyBlock, so all calls between two resets see one chain state).
+    [validationKey] = Keccak(Block.Hash ++ "height/round/blockid-key" of the last commit); the model
+    keeps the tuple that is hashed (the key derivation itself is not modelled: two different tuples are
+    assumed to give different map keys).  A hit still runs Block.ValidateBasic (commit fc51689). *)
+Record vkey := { vk_hash : option bytes; vk_meta : option (N * N * blockid) }.
+
+Definition opt_bytes_eqb (a b : option bytes) : bool :=
+  match a, b with Some x, Some y => bytes_eqb x y | None, None => true | _, _ => false end.
+
+Definition vkey_eqb (a b : vkey) : bool :=
+  (opt_bytes_eqb (vk_hash a) (vk_hash b) &&
+   match vk_meta a, vk_meta b with
+   | None, None => true
+   | Some (h, r, i), Some (h', r', i') => N.eqb h h' && N.eqb r r' && blockid_eqb i i'
+   | _, _ => false
+   end)%bool.
+
+Section Executor.
+  Variable H : bytes -> bytes.
+  Variable K : bytes -> bytes.
+  Variable TxRoot : list bytes -> bytes.
+
+  Definition validation_key (b : block) : vkey :=
+    {| vk_hash := header_hash K (b_header b);
+       vk_meta := match b_last b with None => None | Some c => Some (c_height c, c_round c, c_bid c) end |}.
+
+  (** one call of [ValidateBlock]: verdict and the cache afterwards *)
+  Definition exec_validate (cache : list vkey) (st : vstate) (x : vext) (b : block) : vs_class * list vkey :=
+    if existsb (vkey_eqb (validation_key b)) cache then
+      (match validate_basic H K TxRoot b with VbOk => VsOk | e => VsBasic e end, cache)
+    else
+      match validate_block H K TxRoot st x b with
+      | VsOk => (VsOk, validation_key b :: cache)
+      | e => (e, cache)
+      end.
+
+  (** a history of calls against one chain state, from an empty cache *)
+  Fixpoint exec_run (cache : list vkey) (st : vstate) (calls : list (vext * block)) : list vkey :=
+    match calls with
+    | [] => cache
+    | (x, b) :: rest => exec_run (snd (exec_validate cache st x b)) st rest
+    end.
+End Executor.
